@@ -108,7 +108,7 @@ Proof.
   destruct i as [|k].
   - destruct H as [<-|H]; [left; reflexivity | right; right; exact H].
   - destruct H as [<-|H]; [right; left; reflexivity|].
-    destruct (IH _ _ _ H) as [A|A]; [left; exact A | right; right; exact A].
+    destruct (IH _ _ _ H) as [Hq|Hq]; [left; exact Hq | right; right; exact Hq].
 Qed.
 
 Lemma upd_In_other {A} (l : list A) : forall i x n m,
@@ -118,7 +118,7 @@ Proof.
   destruct i as [|k]; cbn [nth_error upd] in *.
   - injection Hn as <-. destruct Hm as [<-|Hm]; [left; reflexivity | right; right; exact Hm].
   - destruct Hm as [<-|Hm]; [right; left; reflexivity|].
-    destruct (IH _ x _ _ Hn Hm) as [A|A]; [left; exact A | right; right; exact A].
+    destruct (IH _ x _ _ Hn Hm) as [Hq|Hq]; [left; exact Hq | right; right; exact Hq].
 Qed.
 
 Lemma upd_In_new {A} (l : list A) : forall i x n, nth_error l i = Some n -> In x (upd l i x).
@@ -294,6 +294,12 @@ Proof.
     apply in_map_iff. exists g. split; [reflexivity | rewrite A at 1; exact H].
 Qed.
 
+Lemma filter_nil {A} (f : A -> bool) l : (forall x, In x l -> f x = false) -> filter f l = [].
+Proof.
+  induction l as [|x l IH]; intro H; [reflexivity|]. cbn [filter].
+  rewrite (H x (or_introl eq_refl)). apply IH. intros y Hy. apply H. right. exact Hy.
+Qed.
+
 Lemma futs_from_In ns : forall i f,
   In f (futs_from i ns) -> exists n p, In n ns /\ In p (n_futs n) /\ f_cmd f = fst p /\ f_res f = snd p.
 Proof.
@@ -319,8 +325,15 @@ Proof.
     apply check_final_ok; assumption. }
   rewrite E1, E2, E3, E4. cbn [andb negb].
   assert (E5 : filter (fun f => negb (fut_ok (Gall ns) f)) (futs_from 0 ns) = []).
-  { apply (proj2 (List.forallb_filter_id _ _)) || idtac.
-    induction (futs_from 0 ns) as [|f r IH] eqn:Ef in |- * at 1. }
-Abort.
+  { apply filter_nil. intros f Hf. apply negb_false_iff.
+    destruct (futs_from_In ns 0 f Hf) as (n & p & Hn & Hp & Ec & Er).
+    destruct (C n Hn) as [_ _ _ _ F]. unfold fut_ok. rewrite Er.
+    destruct p as [cmd res]. cbn [fst snd] in *. destruct res as [i t d| |]; try reflexivity.
+    destruct (f_done _ _ F cmd i t d Hp) as (Hb & Hd & Hin).
+    assert (HinG : In (clog i) (Gall ns)) by (apply In_Gall; exists n; split; assumption).
+    pose proof (find_idx_sound _ _ HG HinG) as Hfi. rewrite clog_idx in Hfi. rewrite Hfi.
+    rewrite Hb. cbn [e_term e_cmd]. rewrite Hd, Ec, !N.eqb_refl. reflexivity. }
+  rewrite E5. reflexivity.
+Qed.
 
 End Monitor.
